@@ -58,6 +58,7 @@ DEFAULTS = {
     "bare_empty": False,  # rows without cells / tables without rows written without children
     "annotations": False,  # every non-empty cell carries a comment (office:annotation with a paragraph of its own)
     "unnamed": False,  # tables without table:name
+    "subtables": False,  # every non-empty cell also holds a nested table (table:is-sub-table) with a row of its own
 }
 
 
@@ -332,6 +333,13 @@ def content_xml(sheets, opts=None, fault=None):
                     # a comment the way spreadsheet applications store it: in front of the cell's own paragraphs
                     inner = ("<office:annotation><text:p>a comment</text:p><text:p>of two paragraphs</text:p>"
                              "</office:annotation>") + inner
+                if inner and opts.get("subtables"):
+                    # a table inside the cell: its rows and cells are not rows and cells of the sheet
+                    inner += ('<table:table table:is-sub-table="true"><table:table-column/><table:table-row>'
+                              '<table:table-cell office:value-type="string"><text:p>inner cell</text:p>'
+                              '</table:table-cell><table:table-cell/></table:table-row><table:table-row>'
+                              '<table:table-cell><text:p>inner row 2</text:p></table:table-cell></table:table-row>'
+                              '</table:table>')
                 attr = ""
                 if cell_count > 1:
                     attr += ' table:number-columns-repeated="%d"' % cell_count
